@@ -228,15 +228,21 @@ bool Units::UnitsImpl::performTestWithHistory(History &history, std::vector<Unit
  *
  * @return Either @c true or @c false, depending if the units were successfully updated.
  */
-bool updateUnitMultiplier(const UnitsPtr &units, int direction, double &multiplier)
+bool updateUnitMultiplier(const UnitsPtr &units, int direction, double &multiplier, std::vector<UnitsPtr> &path)
 {
     double localMultiplier = 0;
+
+    // Units that are defined in terms of themselves have no multiplier.
+    if (std::find(path.begin(), path.end(), units) != path.end()) {
+        return false;
+    }
+    path.push_back(units);
 
     if (units->isImport()) {
         if (units->isResolved()) {
             auto importSource = units->importSource();
             auto importedUnits = importSource->model()->units(units->importReference());
-            updateUnitMultiplier(importedUnits, 1, localMultiplier);
+            updateUnitMultiplier(importedUnits, 1, localMultiplier, path);
             multiplier += localMultiplier * direction;
         } else {
             return false;
@@ -272,7 +278,7 @@ bool updateUnitMultiplier(const UnitsPtr &units, int direction, double &multipli
                 }
                 double branchMult = 0.0;
                 // Return false when we can't find a valid prefix.
-                if (!updateUnitMultiplier(refUnits, 1, branchMult)) {
+                if (!updateUnitMultiplier(refUnits, 1, branchMult, path)) {
                     return false;
                 }
                 // Make the direction positive on all branches, direction is only applied at the end.
@@ -282,7 +288,16 @@ bool updateUnitMultiplier(const UnitsPtr &units, int direction, double &multipli
         multiplier += localMultiplier * direction;
     }
 
+    path.pop_back();
+
     return true;
+}
+
+bool updateUnitMultiplier(const UnitsPtr &units, int direction, double &multiplier)
+{
+    std::vector<UnitsPtr> path;
+
+    return updateUnitMultiplier(units, direction, multiplier, path);
 }
 
 UnitsPtr Units::create() noexcept
